@@ -9,6 +9,7 @@ import (
 	"strings"
 	"sync"
 	"sync/atomic"
+	"time"
 
 	"hpverif/internal/core"
 	"hpverif/internal/fsx"
@@ -539,7 +540,84 @@ func (p *pausingFS) Open(name string) (hackpadfs.File, error) {
 	return p.FS.Open(name)
 }
 
+// holdFS holds Open(name) until the harness lets go, and says when a caller is inside.
+type holdFS struct {
+	hackpadfs.FS
+	name    string
+	entered chan struct{}
+	release chan struct{}
+	once    sync.Once
+}
+
+func (h *holdFS) Open(name string) (hackpadfs.File, error) {
+	if name == h.name {
+		h.once.Do(func() { close(h.entered) })
+		<-h.release
+	}
+	return h.FS.Open(name)
+}
+
+// c06nestedAddMount: AddMount("p/q", X) is held inside its look at the directory p/q of the root file system while
+// AddMount("p", Y) is issued, Y having no directory q. If the second call returns and the mount table is seen holding p
+// but not p/q, the first call takes effect after that moment: at a directory that no longer exists (p now shows Y), so it
+// must fail. (A library that serialises the two calls never lets the second one return in between: nothing is observed.)
+func c06nestedAddMount(cs c06case, res *core.CaseResult) {
+	root, _ := mem.NewFS()
+	_ = hackpadfs.MkdirAll(root, "p/q", 0o755)
+	hf := &holdFS{FS: root, name: "p/q", entered: make(chan struct{}), release: make(chan struct{})}
+	m, _ := mount.NewFS(hf)
+	x, _ := mem.NewFS()
+	y, _ := mem.NewFS()
+	_ = hackpadfs.WriteFullFile(y, "only-in-y", []byte("y"), 0o644)
+	var err1, err2 error
+	done1, done2 := make(chan struct{}), make(chan struct{})
+	go func() { defer close(done1); err1 = m.AddMount("p/q", x) }()
+	select {
+	case <-hf.entered:
+	case <-done1:
+		return // the directory check does not go through Open("p/q"): nothing to hold
+	case <-time.After(5 * time.Second):
+		close(hf.release)
+		return
+	}
+	go func() { defer close(done2); err2 = m.AddMount("p", y) }()
+	observed := false
+	select {
+	case <-done2:
+		if err2 == nil {
+			hasP, hasPQ := false, false
+			for _, p := range m.MountPoints() {
+				hasP = hasP || p.Path == "p"
+				hasPQ = hasPQ || p.Path == "p/q"
+			}
+			observed = hasP && !hasPQ
+		}
+	case <-time.After(150 * time.Millisecond): // (only widens the window; the verdict below does not depend on it)
+	}
+	close(hf.release)
+	if hung, confirmed := withWatchdog(func() { <-done1; <-done2 }); hung {
+		if confirmed {
+			res.Violate("C06|AddMount|concurrent|hang", "AddMount of a point and of a point below it did not return; goroutine dump shows them parked on a lock", cs)
+		} else {
+			res.Inconclusive = "nested AddMount calls did not finish"
+		}
+		return
+	}
+	res.Count("nested_addmount_pairs", 1)
+	if observed {
+		res.Count("nested_addmount_pairs_with_the_outer_seen_first", 1)
+		if err1 == nil {
+			res.Violate("C06|AddMount|concurrent|nested-point-took-effect-at-a-missing-directory", "AddMount(\"p\", Y) returned and the mount table showed p without p/q; AddMount(\"p/q\", X), which had started earlier, then succeeded although p/q does not exist in Y (no order of the two calls explains what was seen)", cs)
+		}
+	}
+}
+
 func c06concurrent(env *core.Env, cs c06case, idx int, res *core.CaseResult) {
+	if cs.Rep%10 == 7 {
+		c06nestedAddMount(cs, res)
+		res.Nontrivial = true
+		return
+	}
 	r := rand.New(rand.NewSource(env.Seed*12_000_017 + int64(idx)))
 	k := 2 + r.Intn(7)
 	root, _ := mem.NewFS()
